@@ -114,7 +114,7 @@ fn frame_cases(ctx: &mut Ctx, bytes: &[u8], desc: &str) -> bool {
 }
 
 pub fn run(ctx: &mut Ctx) {
-    let n = if ctx.thorough { 240 } else { 36 };
+    let n = if ctx.thorough { 240 } else { 48 };
     for k in 0..n {
         let ver = VERSIONS[(k % 6) as usize];
         let rng = &mut ctx.rng;
@@ -127,10 +127,14 @@ pub fn run(ctx: &mut Ctx) {
         if nm > 0 { for _ in 0..rng.below(4) { b = b.add_doodad_placement(DoodadPlacement { name_id: rng.below(nm as u64) as u32, unique_id: rng.u32(), position: [f(rng), f(rng), f(rng)], rotation: [f(rng), 0.0, f(rng)], scale: rng.range(1, 4096) as u16, flags: (rng.below(4)) as u16 }); } }
         if nw > 0 { for _ in 0..rng.below(3) { b = b.add_wmo_placement(WmoPlacement { name_id: rng.below(nw as u64) as u32, unique_id: rng.u32(), position: [f(rng), f(rng), f(rng)], rotation: [0.0, f(rng), 0.0], extents_min: [f(rng), f(rng), f(rng)], extents_max: [f(rng), f(rng), f(rng)], flags: rng.below(8) as u16, doodad_set: rng.below(3) as u16, name_set: rng.below(3) as u16, scale: 1024 }); } }
         let mut feats = vec![];
-        if ver >= AdtVersion::TBC && rng.chance(1, 2) { feats.push("mfbo"); b = b.add_flight_bounds(MfboChunk { max_plane: [rng.next() as i16; 9], min_plane: [rng.next() as i16; 9] }); }
-        if ver >= AdtVersion::WotLK && rng.chance(2, 3) { feats.push("mh2o"); b = b.add_water_data(water(rng)); }
-        if ver >= AdtVersion::WotLK && rng.chance(1, 2) { feats.push("mtxf"); b = b.add_texture_flags(MtxfChunk { flags: (0..nt).map(|_| rng.below(4) as u32).collect() }); }
-        if ver >= AdtVersion::Cataclysm && rng.chance(1, 2) { feats.push("mamp"); b = b.add_texture_amplifier(MampChunk { amplifier: rng.below(4) as u32 }); }
+        // optional top-level chunks: every combination of (flight bounds, water, texture flags) per version is enumerated
+        // (version detection and the writer's chunk selection depend on which markers are present together), the rest random
+        let combo = (k / 6) % 8;
+        let mamp_on = if ctx.thorough { rng.chance(1, 2) } else { (combo & 1) ^ ((combo >> 2) & 1) == 0 };
+        if ver >= AdtVersion::TBC && combo & 1 != 0 { feats.push("mfbo"); b = b.add_flight_bounds(MfboChunk { max_plane: [rng.next() as i16; 9], min_plane: [rng.next() as i16; 9] }); }
+        if ver >= AdtVersion::WotLK && combo & 2 != 0 { feats.push("mh2o"); b = b.add_water_data(water(rng)); }
+        if ver >= AdtVersion::WotLK && combo & 4 != 0 { feats.push("mtxf"); b = b.add_texture_flags(MtxfChunk { flags: (0..nt).map(|i| if i == 0 { 1 + rng.below(3) as u32 } else { rng.below(4) as u32 }).collect() }); }
+        if ver >= AdtVersion::Cataclysm && mamp_on { feats.push("mamp"); b = b.add_texture_amplifier(MampChunk { amplifier: rng.below(4) as u32 }); }
         // populated terrain chunks: taken from a parsed minimal tile of this version and then filled with optional sub-chunks
         let pop = *rng.pick(&[0usize, 0, 1, 3, 256]);
         if pop > 0 {
